@@ -108,6 +108,9 @@ def render_file(f):
                 left = f'("{e["uni"]}", {left})[1]'
             if e.get("access_only"):
                 ex = f"{getter(e['site'])}[{key}] is not None"
+            elif e.get("via") == "example":
+                # the snapshot is handed to the public testing helper, which compares it with the files its inner run changed
+                ex = f"check_example({e['exflags']!r}, {getter(e['site'])})"
             elif s["place"] == "helper_arg":
                 fn = {"eq": "check_eq", "le": "check_le", "ge": "check_ge", "in": "check_in"}[s["op"]]
                 ex = f"{fn}({left}, {getter(e['site'])})"
